@@ -207,3 +207,31 @@ def _optional_presence(ctx):
     txt = norm(rl)
     ok = "maximum = None" in txt and any(isinstance(r, ast.Return) and isinstance(r.value, ast.Tuple) and len(r.value.elts) == 2 for r in ast.walk(rl))
     ctx.ob("C21.R5", RD + ":BinaryFileReader.read_limits", "the reader yields None exactly when the flag byte says no maximum follows", ok, construct="reader-none")
+    _labels(ctx)
+
+
+def _labels(ctx):
+    """R6: branch labels in the text format resolve to the innermost enclosing block of that name"""
+    from .. import sym
+    P = "ppci/wasm/text/parser.py"
+    ctx.rule("C21.R6", "text format: `br $l` resolves to the INNERMOST enclosing block labelled $l (the depth is counted from the top of the block stack); blocks are pushed on entry and popped on `end`", floor=3)
+    mr = ctx.fn(P, "WatParser._make_ref")
+    site = P + ":WatParser._make_ref"
+    asg = [n for n in ast.walk(mr) if isinstance(n, ast.Assign) and norm(n.targets[0]).endswith(".index") and "block_stack" in norm(sym.deep_inline(n.value, sym.single_assign_env(mr)))]
+    ctx.need(len(asg) == 1, "_make_ref: label depth computation not found")
+    e = sym.deep_inline(asg[0].value, sym.single_assign_env(mr))
+    t = " ".join(norm(e).split())
+    innermost = ("list(reversed(self.block_stack)).index(value)", "self.block_stack[::-1].index(value)")
+    outermost = any(isinstance(c, ast.Call) and norm(c.func) == "self.block_stack.index" for c in ast.walk(e))
+    if t in innermost:
+        ctx.ob("C21.R6", site, "the label depth is the position of the name counted from the top of the block stack (innermost binding wins)", True, construct="innermost-label")
+    elif outermost:
+        ctx.ob("C21.R6", site, "the label depth is the position of the name counted from the top of the block stack (innermost binding wins)", False, construct="innermost-label", node=asg[0],
+               detail="%s searches from the bottom: an inner block re-using the name is skipped" % t)
+    else:
+        ctx.undecided("C21.R6", site, "label depth computed by `%s`: search direction not recognised" % t)
+    cls = ctx.cls(P, "WatParser")
+    pushes = [c for c in ast.walk(cls) if isinstance(c, ast.Call) and norm(c.func) == "self.block_stack.append"]
+    pops = [c for c in ast.walk(cls) if isinstance(c, ast.Call) and norm(c.func) == "self.block_stack.pop"]
+    ctx.ob("C21.R6", P + ":WatParser", "every block/loop/if pushes its label and every end pops one (%d pushes, %d pops)" % (len(pushes), len(pops)), len(pushes) >= 2 and len(pops) >= len(pushes), construct="push-pop")
+    ctx.ob("C21.R6", P + ":WatParser", "labels are popped from the top of the stack", all(not c.args for c in pops), construct="pop-top")
